@@ -101,6 +101,10 @@ impl Ctx {
             }
         }
     }
+    /// children of a repetition or an option, folded into one node (no event: not an action)
+    pub fn fold(&self, kids: Vec<Node>) -> Node {
+        Node(self.digest(0xfffe, &kids))
+    }
     pub fn act(&self, pid: u32, kids: Vec<Node>) -> Node {
         self.sched();
         self.maybe_reenter();
